@@ -65,7 +65,7 @@ impl Rng {
 // ------------------------------------------------------------------------------------------
 
 pub const N_DEPTHS: usize = 30;
-pub const MAX_THREADS: usize = 6;
+pub const MAX_THREADS: usize = 10;
 
 #[derive(Clone, Debug, PartialEq)]
 pub enum Op {
@@ -329,7 +329,7 @@ pub fn decode(s: &str) -> Result<Scenario, String> {
         }
         threads.push(ThreadSpec { start, ops: v });
     }
-    if threads.is_empty() || threads.len() > 8 { return Err("need 1..=8 threads".into()); }
+    if threads.is_empty() || threads.len() > MAX_THREADS { return Err("need 1..=10 threads".into()); }
     let mut faults = Vec::new();
     if let Some(fs) = fs {
         for fl in fs.split(',') {
@@ -430,6 +430,12 @@ pub enum Profile {
     /// more than 512) and then uses a second depth that another thread first-uses meanwhile.
     /// Catches defects that only appear when a counter wraps / a periodic refresh happens.
     Long,
+    /// Crowds: 7..=10 threads, nearly all released together, each doing ONE light first-use op
+    /// on one depth (sometimes two depths, sometimes one op more): many simultaneous waiters on
+    /// one initialiser.  Catches defects that need several waiters or several losers at once
+    /// (a wake-up delivered to one waiter only, a per-waiter slot table that overflows, a
+    /// counter of in-flight users).
+    Crowd,
 }
 
 pub fn n_hash(d: u8) -> u64 {
@@ -757,6 +763,34 @@ fn generate_long(seed: u64) -> Scenario {
     Scenario { threads, faults: Vec::new() }
 }
 
+/// Crowd scenarios (see [`Profile::Crowd`]).
+fn generate_crowd(seed: u64) -> Scenario {
+    let mut rng = Rng::new(seed);
+    let n_threads = rng.range(7, MAX_THREADS as u64) as usize;
+    let d0 = rng.below(N_DEPTHS as u64) as u8;
+    let d1 = if rng.chance(1, 3) { rng.below(N_DEPTHS as u64) as u8 } else { d0 };
+    // light first-use ops only: L H N B R V (G now and then: it is the widest per-cell op)
+    let light_kinds = [0usize, 0, 1, 3, 9, 10, 11, 11];
+    let mut threads: Vec<ThreadSpec> = Vec::with_capacity(n_threads);
+    for ti in 0..n_threads {
+        let n_ops = if rng.chance(1, 5) { 2 } else { 1 };
+        let mut ops = Vec::new();
+        for _ in 0..n_ops {
+            let d = if rng.chance(3, 4) { d0 } else { d1 };
+            let k = if rng.chance(1, 12) { 2 } else { light_kinds[rng.below(light_kinds.len() as u64) as usize] };
+            ops.push(gen_op(&mut rng, k, d, true));
+        }
+        let late = ti > 0 && rng.chance(1, 6);
+        threads.push(ThreadSpec { start: if late { Start::Late } else { Start::Line }, ops });
+    }
+    let mut faults = Vec::new();
+    for _ in 0..rng.below(3) {
+        let ti = rng.below(n_threads as u64) as u8;
+        faults.push(Fault::Stall { thread: ti, at_event: rng.range(1, 8) as u32, steps: rng.range(1, 40) as u32 });
+    }
+    Scenario { threads, faults }
+}
+
 /// Range-centred scenarios (see [`Profile::Ranges`]).
 fn generate_ranges(seed: u64) -> Scenario {
     let mut rng = Rng::new(seed);
@@ -856,12 +890,15 @@ pub fn generate(seed: u64, profile: Profile) -> Scenario {
     if profile == Profile::Long {
         return generate_long(seed);
     }
+    if profile == Profile::Crowd {
+        return generate_crowd(seed);
+    }
     let mut rng = Rng::new(seed);
     let (max_threads, max_ops, light) = match profile {
         Profile::Full => (6u64, 4u64, false),
         Profile::Light => (5, 2, true),
         Profile::Tiny => (4, 1, true),
-        Profile::Cover | Profile::Crash | Profile::Ranges | Profile::Pairs | Profile::Xmatch | Profile::Long => unreachable!(),
+        Profile::Cover | Profile::Crash | Profile::Ranges | Profile::Pairs | Profile::Xmatch | Profile::Long | Profile::Crowd => unreachable!(),
     };
     // thread count: biased to small
     let n_threads = match rng.below(10) {
@@ -968,7 +1005,7 @@ mod tests {
     use super::*;
     #[test]
     fn roundtrip() {
-        for p in [Profile::Full, Profile::Light, Profile::Tiny, Profile::Cover, Profile::Crash, Profile::Ranges, Profile::Pairs, Profile::Xmatch, Profile::Long] {
+        for p in [Profile::Full, Profile::Light, Profile::Tiny, Profile::Cover, Profile::Crash, Profile::Ranges, Profile::Pairs, Profile::Xmatch, Profile::Long, Profile::Crowd] {
             for s in 0..2000u64 {
                 let sc = generate(derive_seed(1, 2, s), p);
                 let txt = encode(&sc);
